@@ -51,7 +51,7 @@ seq_t dtw_warping_paths{{ suffix }}{{ suffix2 }}(seq_t *wps,
     {%- else %}
     // DTWPruned
     idx_t sc = 0;
-    idx_t ec = 0;
+    idx_t ec = settings->psi_2b;
     idx_t ec_next;
     bool smaller_found;
     {%- endif %}
@@ -136,6 +136,10 @@ seq_t dtw_warping_paths{{ suffix }}{{ suffix2 }}(seq_t *wps,
         }
         {%- else %}
         // PrunedDTW
+        if (ri <= settings->psi_1b) {
+            // rows that can start for free in the first column are scanned from that column
+            sc = 0;
+        }
         if (sc <= min_ci) {} else {
             for (; ci<sc; ci++) {
                 wps[ri_width + wpsi] = {{infinity}};
@@ -206,6 +210,10 @@ seq_t dtw_warping_paths{{ suffix }}{{ suffix2 }}(seq_t *wps,
         }
         {%- else %}
         // PrunedDTW
+        if (ri <= settings->psi_1b) {
+            // rows that can start for free in the first column are scanned from that column
+            sc = 0;
+        }
         if (sc <= min_ci) {} else {
             for (; ci<sc; ci++) {
                 wps[ri_width + wpsi] = {{infinity}};
